@@ -87,7 +87,7 @@ func TestVerifC05(t *testing.T) {
 	schedBubbleMode.Store(false)
 
 	// ---- part 1: raw core Input -------------------------------------------------
-	for q := 0; q < env.pickN(160, 4000); q++ {
+	for q := 0; q < env.pickN(160, 800); q++ {
 		idx := caseIdx
 		caseIdx++
 		if !env.mine(idx) {
@@ -201,7 +201,7 @@ func TestVerifC05(t *testing.T) {
 	}
 
 	// ---- part 2: raw FEC decoder --------------------------------------------------
-	for q := 0; q < env.pickN(160, 4000); q++ {
+	for q := 0; q < env.pickN(160, 800); q++ {
 		idx := caseIdx
 		caseIdx++
 		if !env.mine(idx) {
@@ -299,7 +299,7 @@ func TestVerifC05(t *testing.T) {
 	sanReset()
 
 	// ---- part 3: live sessions over simnet -------------------------------------------
-	for q := 0; q < env.pickN(64, 1600); q++ {
+	for q := 0; q < env.pickN(64, 400); q++ {
 		idx := caseIdx
 		caseIdx++
 		if !env.mine(idx) {
@@ -328,7 +328,7 @@ func TestVerifC05(t *testing.T) {
 	}
 
 	// ---- part 4: real loopback UDP (recvmmsg path) -----------------------------------
-	for q := 0; q < env.pickN(16, 200); q++ {
+	for q := 0; q < env.pickN(16, 64); q++ {
 		idx := caseIdx
 		caseIdx++
 		if !env.mine(idx) {
